@@ -25,6 +25,9 @@ TARGETS["seqlock"] = dict(src="scenarios/seqlock.cpp", defs=[])
 TARGETS["leftright"] = dict(src="scenarios/leftright.cpp", defs=[])
 
 TARGETS["slots"] = dict(src="scenarios/slots.cpp", defs=[])
+for n in range(16):
+    TARGETS["algebra.R%d" % n] = dict(src="scenarios/slots.cpp", defs=["-DXV_RECL=%d" % n])
+TARGETS["markedptr"] = dict(src="scenarios/markedptr.cpp", defs=[])
 
 SIMPLE_FAMILIES = {"deque": ["C12"], "seqlock": ["C14"], "leftright": ["C13"], "slots": ["C18"]}
 GENERIC_KINDS = {"use-after-free", "wild-access", "double-free", "bad-free", "crash", "hang", "deadlock", "watchdog"}
@@ -77,6 +80,8 @@ def attribute(scenario, config, kind, primary, weak):
             props = [primary]
         else:  # crash / heap error / race: breaks set semantics and iterator validity alike
             props = ["C08", "C09"] if config.startswith("trav_") else ["C08"]
+    elif fam in ("algebra", "markedptr"):
+        props = ["C16"] if kind in ("solo-bound", "solo-blocked") else ["C15"]
     elif fam == "reclaim":
         if kind in ("solo-bound", "solo-blocked"):
             props = ["C16"]
@@ -164,7 +169,7 @@ PLANS["C05"] = plan_queue_lin(
     "C05", r"^(vyu|nib)_", [], [], True,
     "as C04 but against a bounded FIFO of the configured capacity (failed strong try_push legal only when full; for "
     "nikolaev_bounded_queue when size + overlapping operations >= capacity; weak vyukov operations may fail spuriously)",
-    ["rejected_under_overlap", "empty_under_overlap"], execs_quick=6000, execs_thorough=100000)
+    ["rejected_under_overlap", "empty_under_overlap"], execs_quick=20000, execs_thorough=200000)
 PLANS["C06"] = plan_queue_lin(
     "C06", r"^(kir|kib)_", [1, 2, 3, 4, 5, 6, 7], [1, 2, 3, 4, 5, 6, 7, 8, 9, 11, 12, 13, 14, 15], True,
     "as C04 but against a k-out-of-order FIFO (pop may return any of the k oldest; 'empty' legal iff size = 0, or size < k while "
@@ -228,10 +233,39 @@ PLANS["C01"] = plan_reclaim("C01", r"^proto_", 6000, 40000, _RECLAIM_RULE,
 PLANS["C02"] = plan_reclaim("C02", r"^proto_", 6000, 40000,
                             _RECLAIM_RULE + "; census after the flush: every retired node destroyed exactly once by the deleter instance passed to reclaim()",
                             {"destroyed_by_other_after_retirer_exit": 100, "destroyed_in_history": 10000})
-PLANS["C15"] = plan_reclaim("C15", r"^proto_", 1500, 20000,
-                            _RECLAIM_RULE + "; guard algebra checked after every copy/move/swap/reset/self-assignment; snapshot claims of acquire / "
-                            "acquire_if_equal checked against the recorded value history of the source cell (one-sided interval reasoning)",
-                            {"guards_registered": 10000})
+def plan_c15():
+    """(c)+(d): guard algebra and snapshot claims inside the concurrent reclaim protocol; (c) again as bounded-exhaustive and long
+    random guard sequences per reclaimer (algebra.*); (a)+(b): native marked_ptr / concurrent_ptr bit model under ASan+UBSan."""
+    base = plan_reclaim("C15", r"^proto_", 6000, 30000,
+                        _RECLAIM_RULE + "; guard algebra checked after every copy/move/swap/reset/self-assignment; snapshot claims of acquire / "
+                        "acquire_if_equal checked against the recorded value history of the source cell (one-sided interval reasoning). "
+                        "PLUS algebra.*: for each of the 16 reclaimer configurations all sequences of 2 (thorough: 3) guard operations over 4 guards "
+                        "from three start states and long random sequences racing a retiring thread, judged by a shared-ownership model of the guards "
+                        "(values after every operation, no exception, no node destroyed while a guard holds it). PLUS markedptr (native, ASan+UBSan): "
+                        "marked_ptr<T, M, U> for M = 0..32 and U in {16, 8, 4, 0}: corner and random canonical pointers x mark values, get/mark round trip, "
+                        "value equality, reset, concurrent_ptr load/store/compare_exchange",
+                        {"guards_registered": 10000, "exhaustive_sequences": 100000, "marked_ptr_combinations": 100000})
+    recls = R8 + RPLUS
+
+    def targets(tier):
+        return base["targets"](tier) + [("algebra.R%d" % r, "xrt-prod") for r in recls] + [("markedptr", "asan")]
+
+    def jobs(tier, seed, list_configs):
+        jobs = base["jobs"](tier, seed, list_configs)
+        for r in recls:
+            t = "algebra.R%d" % r
+            jobs.append(dict(target=t, variant="xrt-prod", timeout=3600,
+                             args=["--cfg", "run_alg", "--mode", "sc", "--seed", str(seed), "--execs", "2000" if tier == "quick" else "20000"]))
+            jobs.append(dict(target=t, variant="xrt-prod", timeout=3600,
+                             args=["--cfg", "exh2_alg" if tier == "quick" else "exh2_alg,exh3_alg", "--mode", "sc", "--seed", str(seed), "--execs", "16"]))
+        jobs.append(dict(target="markedptr", variant="asan", timeout=3600,
+                         args=["--cfg", "all", "--seed", str(seed), "--execs", "10" if tier == "quick" else "200"]))
+        return jobs
+
+    return dict(base, targets=targets, jobs=jobs)
+
+
+PLANS["C15"] = plan_c15()
 PLANS["C17"] = plan_reclaim("C17", r"^gens_", 400, 4000,
                             "each evaluation = 6-10 generations (rounds) of 3-6 short-lived threads (late threads start after another thread exited, so "
                             "records of exited threads are adopted inside the history) running the reclaim protocol, each round followed by a flush by fresh "
@@ -342,21 +376,21 @@ def plan_simple(prop, target, pattern, execs_quick, execs_thorough, rule, gate_c
 
 
 PLANS["C12"] = plan_simple(
-    "C12", "deque", r".", 4000, 60000,
+    "C12", "deque", r".", 24000, 120000,
     "each evaluation = owner-only prefix of 0..64*capacity push/take pairs (moves top/bottom to an arbitrary offset), then one owner (3-11 push/pop) "
     "and 1-3 thieves (1-5 steals each) under one seeded schedule, then a drain; judged by a WGL search against a sequential deque in which a steal "
     "may fail while overlapping another operation; every returned pointer must be a pushed item; capacities 2/4/8, growing and fixed arrays",
     {"executions_with_growth": 200, "successful_concurrent_steals": 1000, "failed_steals_under_overlap": 10})
 
 PLANS["C14"] = plan_simple(
-    "C14", "seqlock", r".", 4000, 60000,
+    "C14", "seqlock", r".", 16000, 120000,
     "each evaluation = 1-2 writers (store / update / load) and 1-3 readers (load), <= 6 operations each, on seqlock<Blob<N,Align>, slots<S>> for sizes "
     "9..40 bytes (incl. sizes that are not multiples of the word size and alignments 1/2/4), slots 1/2/3/4/8, under one seeded schedule; every loaded "
     "value and every value handed to an update functor is decoded byte by byte against the pattern of the stored values; the history is judged by a WGL "
     "search against an atomic register (update = atomic read-modify-write)", {"loads_overlapping_writes": 1000})
 
 PLANS["C13"] = plan_simple(
-    "C13", "leftright", r".", 16000, 240000,
+    "C13", "leftright", r".", 64000, 480000,
     "each evaluation = 1-2 writers (update = set both fields of the instance to a unique id, in two steps with a preemption point in between) and 1-3 "
     "readers, <= 5 operations each, under one seeded schedule (every seq_cst operation, mutex operation and yield is a scheduling point); functor "
     "overlap monitor per instance address, per-instance update logs, WGL search against an atomic register", {"reads_between_switch_and_second_apply": 500}, chunks=16)
@@ -386,13 +420,13 @@ def plan_harris(prop, pattern, execs_quick, execs_thorough, rule, gate_counters)
 
 
 PLANS["C08"] = plan_harris(
-    "C08", r"^lin_", 1200, 15000,
+    "C08", r"^lin_", 5000, 40000,
     "each evaluation = 2-4 threads x <= 6 operations (emplace / emplace_or_get / get_or_emplace(_lazy) / operator[] / erase(key) / find+erase(iterator) / "
     "find / contains) over a universe of 2-4 keys on harris_michael_list_based_set (less / greater) and harris_michael_hash_map (1/2/4 buckets, identity / "
-    "constant / order-reversing / two-valued hash, memoize_hash on/off) with unique values per insertion, plus a final iteration; judged per key "
+    "constant / order-reversing / two-valued hash, memoize_hash on/off, int keys and a non-trivially movable key type whose moved-from value differs) with unique values per insertion, plus a final iteration; judged per key "
     "(P-compositionality) by a WGL search against a sequential set/map", {"wgl_nodes": 1000})
 PLANS["C09"] = plan_harris(
-    "C09", r"^trav_", 1200, 15000,
+    "C09", r"^trav_", 5000, 40000,
     "each evaluation = one traversing thread (1-2 full traversals with pre-/post-increment, iterator copies, optional erase(iterator) at position 0-2) and "
     "1-3 updating threads over 2-4 keys; traversal monitor with one-sided interval facts: no yield of an element that is definitely absent, no element "
     "yielded twice without re-insertion, every element definitely present during the whole traversal is yielded; heap shadow for reclaimed nodes; the "
@@ -588,9 +622,11 @@ META = {
                 level_text="Same executions as C01; exactly-once destruction, deleter identity (stateful deleter tokens) and hand-over of retire lists of exited threads are "
                            "decided at the quiescent end after a flush whose iteration bound (10 000) is two orders of magnitude above what the slowest scheme needs.",
                 level_note=_LEVEL_NOTE + " 'Eventually' is restated as bounded progress of the flush."),
-    "C15": dict(design_ref="DESIGN.md 5/C15", technique="runtime monitoring: reference-model monitor (shared-ownership model of guards, value history of cells) over random guard operation sequences",
-                level_text="guard_ptr algebra and snapshot claims for all 16 reclaimer configurations inside concurrent histories (other threads keep replacing the source). "
-                           "The marked_ptr bit model and the single-thread bounded-exhaustive guard sequences of the design are not built yet; this check covers parts (c) and (d).",
+    "C15": dict(design_ref="DESIGN.md 5/C15 and 0.2", technique="runtime monitoring: reference-model monitors - shared-ownership model of guards over bounded-exhaustive and random guard operation sequences for all 16 reclaimer configurations, value history of cells for snapshot claims, native ASan+UBSan bit-model check of marked_ptr/concurrent_ptr",
+                level_text="(a)(b) marked_ptr for all mark widths 0..32 and four upper/lower splits against a bit model, concurrent_ptr as atomic marked_ptr, under "
+                           "ASan+UBSan; (c) every sequence of 2 (thorough: 3) guard operations over 4 guards from three start states plus long random sequences "
+                           "racing a retiring thread for each reclaimer, and the guard algebra inside the concurrent reclaim protocol; (d) snapshot claims of acquire / "
+                           "acquire_if_equal against the recorded value history of the source while other threads keep replacing it.",
                 level_note=_LEVEL_NOTE),
     "C17": dict(design_ref="DESIGN.md 5/C17", technique="runtime monitoring: allocation census at quiescent points across thread generations + C01/C02 oracles across control-block reuse",
                 level_text="6-10 generations of short-lived threads per execution with adoption of exited threads' records inside the history; the number of live heap blocks "
